@@ -528,6 +528,26 @@ fn statics(rng: &mut Rng, n: usize, sink: &mut Sink) {
         sink.line("push 1 61");
         sink.line("push 2 62");
         sink.line("insert_str 0 0 -");
+        // clone_from with a static source (full length, and shortened) into every kind of destination:
+        // the destination must end up borrowing the same static bytes, without any allocator request
+        sink.line(&format!("from_static 4 {sid}"));
+        sink.line(&format!("from_static 5 {sid}"));
+        let t5 = sink.ex.observe(5).map(|o| o.text).unwrap_or_default();
+        sink.line(&format!("truncate 5 {}", gn::index(rng, &t5)));
+        sink.line(&format!("with_capacity 6 {}", 150 + rng.below(100)));      // unique heap with spare room
+        let l6 = 3 + rng.below(40);
+        sink.line(&format!("push_str 6 {}", h(&gn::text_of_len(rng, l6))));
+        sink.line(&format!("from_static 7 {}", (sid + 1) % STATIC_TEXTS.len()));  // another static text
+        let (l8, l9) = (rng.below(16), 20 + rng.below(30));
+        sink.line(&format!("from 8 {}", h(&gn::text_of_len(rng, l8))));  // inline
+        sink.line(&format!("from 9 {}", h(&gn::text_of_len(rng, l9))));
+        sink.line("clone 10 9");                                                // shared heap
+        let srcs = [4usize, 5];
+        for (k, d) in [6usize, 7, 8, 9].iter().enumerate() {
+            sink.line(&format!("clone_from {d} {}", srcs[(it + k) % 2]));
+        }
+        sink.line("push 6 63");
+        sink.line("pop 7");
     }
 }
 
